@@ -7,7 +7,11 @@
      smaller depth (cross-check of the state abstraction);
 (a2) the parent's ``join`` / ``exitcode`` / ``is_alive`` racing with the child's
      exit: parent and environment as two vthreads, every interleaving within a
-     preemption + timer-deviation bound;
+     preemption bound, at the granularity of kernel operations and (separate
+     configurations) of every source line of the parent-side billiard code.
+     The virtual clock advances only when every vthread is blocked, so the time
+     a join takes is the time it spent waiting, not time during which the
+     parent was descheduled (that would be the scheduler's doing, not join's);
 (b)  the complete wait-status table (256 exit codes, signals 1..64 with and
      without the core flag) through the real ``Popen.poll`` decoding, reached
      through every observation path;
@@ -1141,6 +1145,8 @@ def run_real(rep, tier, seed):
     for m in sorted(by_method):
         st = by_method[m]
         rep.part('real/' + m, evaluations=st['n'], validated=st['n'],
+                 without_gate_protocol=sum(
+                     1 for c in cases if c['method'] == m and c.get('lite')),
                  outcomes=sorted(map(repr, st['outcomes'])),
                  samples=st['samples'],
                  recorded_not_judged={k: v for k, v in sorted(silent.items())
@@ -1245,6 +1251,7 @@ def main(tier, seed, only=None):
     if want('real') and not rep.violations:
         run_real(rep, tier, seed)
     elif want('real'):
+        rep.cov['exhaustive'] = False
         rep.cov['caps'].append('real: skipped, a virtual part already '
                                'reported a violation')
     rep.assume(
@@ -1262,6 +1269,10 @@ def main(tier, seed, only=None):
         'part real asserts logical outcomes only (no wall-clock bounds); a '
         'child that never reaches its gate, or a plain interpreter that '
         'does not finish, is a harness error, not a verdict',
+        'part race: the virtual clock moves only when parent and environment '
+        'are both blocked, so "join(t) returns within t" is judged on the '
+        'time join spent waiting; scheduling delays of the parent are not '
+        'charged to billiard',
         'the virtual parts use one process object; _cleanup() of several '
         'children is outside the alphabet')
     return rep.finish()
